@@ -11,6 +11,12 @@ CHECKS = {
          'Every generated input is parsed by the real front end inside a child process; the monitor decides termination by a parser tick budget (hook H5), tree completeness by a nil-safe dump, error type/code/position by inspection and the rendered message by comparing the quoted line with the physical lines of the input. Held on the inputs explored, not a proof over all character sequences.',
          'Trusts: the tick hook placement (token reads + block loops), the line splitter of the judge, Go runtime. Inputs the generators never produce are not covered.', '§6 C05'),
 }
+CHECKS['C10'] = ('exploration','runtime monitoring: child-process crash monitor over an enumerated member x receiver x argument space (Go API driver and one-call Zn programs); panic / nil-result / process-exit detector',
+  'Every built-in member name found in the working tree is applied to every receiver of a pool covering all value types with boundary-value argument tuples, both directly on the Go element API and through generated Zn programs, inside recover() in a child process whose death is attributed through an on-disk journal. Held on the enumerated calls; exhaustive for arity<=1 (quick) / <=2 (thorough) over the pools.',
+  'Trusts: string-literal scan finds all member names; pools represent the boundary classes. stdlib/http does not compile on this platform and is out of reach.', '§6 C10')
+CHECKS['C17'] = ('fault_enumeration','runtime monitoring with fault enumeration: every block-boundary straddle, BOM variant and single-byte corruption fed to the real decoders; oracle = unicode/utf8',
+  'The real FileStream/ByteStream decoders and LoadFile+Execute are driven over an enumerated fault space (every split offset at three block boundaries, every single-byte corruption of small programs, chunk sizes 1..17) and judged by the standard library decoder; marker programs make a silently truncated execution observable.',
+  'Trusts: Go unicode/utf8 as the reference; files larger than 3 blocks sampled only.', '§6 C17')
 NOT_YET = {}
 
 def main():
